@@ -233,6 +233,17 @@ def run(ctx):
             for cname in inames:
                 judge_ident(ctx, nm, nm, (), cname, ID_CONTEXTS[cname])
                 judge_ident(ctx, "ns." + nm, nm, ("ns",), cname, ID_CONTEXTS[cname])
+    # identifiers that are (case variants of) built-in function names: a field reference is
+    # never a function call, and its spelling is kept letter for letter
+    from ..ref.functable import ARITY
+    if ctx.shard == 1 % ctx.nshards:
+        for fn in sorted(ARITY):
+            for sp in dict.fromkeys([fn, fn.title(), fn.upper(), fn.swapcase(), fn.lower(),
+                                     fn[:1].upper() + fn[1:]]):
+                *ns, nm = sp.split(".")
+                for cname in inames:
+                    judge_ident(ctx, sp, nm, tuple(ns), cname, ID_CONTEXTS[cname])
+                ctx.cls("ident:function-name")
     contracts.flush_counts(ctx)
 
 
